@@ -216,11 +216,24 @@ def run_loader(tier, acc):
     tree.rmtree(root)
 
 
+def sweep_models(tier):
+    """A deterministic slice of C10's exhaustive n-gram-2 model family (every 499th model; every 97th in thorough), in the on-disk model format."""
+    from . import c10
+    step = 499 if tier == 'quick' else 97
+    for k, m in enumerate(c10.models_ngram2([0, 1, 2, None], [0, 1, 2, None], [0, 1, 2, None], [2, 3, 4])):
+        if k % step:
+            continue
+        ln = [10] * 4
+        for total_len, lvl in m['ln'].items():
+            ln[total_len - 1] = lvl
+        yield {'ngram': 2, 'alphabet': ['a', 'b'], 'ip': dict(m['ip']), 'ep': {}, 'cp': dict(m['cp']), 'ln': ln, 'top_level': 8}
+
+
 def run_markov(tier, acc):
     tree.use()
     G = tree.imp('lib_guesser.pcfg_grammar').PcfgGrammar
     root = tree.mkdtemp('pcfgmc-c04m-')
-    for mi, model in enumerate(OMEN_MODELS):
+    for mi, model in enumerate(OMEN_MODELS + list(sweep_models(tier))):
         levels = sorted({lvl for _, lvl in R.omen_strings(model) if 1 <= lvl <= model.get('top_level', 10)})
         variants = [('distinct', None)]
         if len(levels) >= 2:
@@ -292,5 +305,7 @@ def replay(case):
         run_loader('thorough', acc)
     else:
         run_markov('quick', acc)
+        if not [f for f in acc.failures if f['case'] == case]:
+            run_markov('thorough', acc)
     fs = [f for f in acc.failures if f['case'] == case or case['kind'] == 'loader']
     return fs[0]['msg'] if fs else None
